@@ -36,6 +36,10 @@ SumSeq(s) == FoldLeft(LAMBDA a, b : a + b, 0, s)
 Acct  == {"orb", "dust", "esc0", "esc1", "U", "F1", "F2", "M", "cctp", "warp", "hyp", "xfer", "pool"}
 Denom == {"uusdc", "ustake", "uswap", "ibc"}   \* "ibc" = all ibc/HASH vouchers, summed
 NativeDenoms == {"uusdc", "ustake"}
+\* denominations an escrow account can hold: the natives, and the swap output once some of it has been
+\* sent out over a channel (environment step escrowSwap)
+Escrowable == NativeDenoms \cup {"uswap"}
+SwapEscrowed == 5000
 MintingDenom == "uusdc"
 BurnLimit    == 150000
 CctpDomains  == {0, 1}
@@ -449,7 +453,7 @@ PlainICS20(s, in) ==
      THEN Res(FALSE, "ics20-invalid", s, NoReq)
   ELSE IF in.dn \in RetClasses THEN      \* returning token: un-escrow
      IF to \in BankBlocked THEN Res(FALSE, "ics20-blocked-receiver", s, NoReq)
-     ELSE IF AmtKind(in) = "huge" \/ in.base \notin NativeDenoms \/ s.bal[Escrow(in.chan)][in.base] < in.amt
+     ELSE IF AmtKind(in) = "huge" \/ in.base \notin Escrowable \/ s.bal[Escrow(in.chan)][in.base] < in.amt
         THEN Res(FALSE, "ics20-insufficient-escrow", s, NoReq)
      ELSE IF Restricted(s, Escrow(in.chan), to, in.base) THEN Res(FALSE, "ics20-restricted", s, NoReq)
      ELSE Res(TRUE, "", Move(s, Escrow(in.chan), to, in.base, in.amt), NoReq)
@@ -592,6 +596,9 @@ EnvStep(s, in) ==
     [] in.op = "cctpPause"   -> Res(TRUE, "", [s EXCEPT !.env.cctpPaused = TRUE], NoReq)
     [] in.op = "cctpUnpause" -> Res(TRUE, "", [s EXCEPT !.env.cctpPaused = FALSE], NoReq)
     [] in.op = "nextblock" -> Res(TRUE, "", s, NoReq)    \* a later block of the same chain: nothing in the state depends on height or time
+    \* some of the swap's output denomination left Noble over channel-0 earlier: the escrow now holds it
+    \* and it can RETURN like any native denomination
+    [] in.op = "escrowSwap" -> Res(TRUE, "", Move(s, "pool", "esc0", "uswap", SwapEscrowed), NoReq)
     [] in.op = "bigdust" -> Res(TRUE, "", s, NoReq)      \* 2^64 units of the (untracked) big denom deposited on the orbiter account
     [] in.op = "bigback" -> Res(TRUE, "", s, NoReq)      \* big-denom coins go out over IBC again (untracked denom)
     [] OTHER -> Res(FALSE, "env", s, NoReq)
@@ -635,7 +642,7 @@ Refund(s, in) ==
   ELSE IF AmtKind(in) # "num" THEN Res(FALSE, "out-of-model", s, NoReq)
   ELSE IF in.dn = "VOUCHER" THEN      \* a voucher Noble minted: mint it back
      Res(TRUE, "", [s EXCEPT !.bal[to]["ibc"] = @ + in.amt, !.supply["ibc"] = @ + in.amt], NoReq)
-  ELSE IF in.base \notin NativeDenoms \/ s.bal[Escrow(in.chan)][in.base] < in.amt \/ in.amt < 1
+  ELSE IF in.base \notin Escrowable \/ s.bal[Escrow(in.chan)][in.base] < in.amt \/ in.amt < 1
      THEN Res(FALSE, "refund-insufficient-escrow", s, NoReq)
   ELSE IF Restricted(s, Escrow(in.chan), to, in.base) THEN Res(FALSE, "refund-restricted", s, NoReq)
   ELSE Res(TRUE, "", Move(s, Escrow(in.chan), to, in.base, in.amt), NoReq)
